@@ -82,7 +82,7 @@ PROPS = {
         ],
         "trusted_base": [STDLIB, "net/url, terraform-registry-address, terraform-svchost (IDNA) and go-versions are parameters: on the lane the model receives the real library's answers as an oracle table for exactly the strings it asks about; URL printing (URL.String) is not modelled, so the print/parse round trip of remote addresses is established by the lane's oracle on real values, not by a theorem"],
         "assumptions": ["open findings F17, F18, F33-F36 (sub-paths that URL escaping rewrites, RawPath or fragment or trailing-slash package path combined with a sub-path, constructor inputs the parsers never produce, '@'/newline in a final registry sub-path) are reported as KNOWN-FINDING by mechanism"],
-        "explanation": "Registry.lean models ParseRegistrySource / ParseFinalRegistrySource (incl. the hand-written matcher for the pattern ^(.+)@([^/]+)(//(.+))?$), their String methods and the dispatch of ParseSource / ParseFinalSource, with regaddr.ParseModuleSource and versions.ParseVersion as oracle parameters; the 'registry' lane asks the model which strings it needs parsed, answers with the real libraries and compares results and dispatch. C06_local_roundtrip, C06_local_resolve_canonical / _roundtrip (the repaired local resolution always yields a canonical, re-parseable local address: F16), C06_subpath_split_roundtrip_partial / _url (printing pkg//sub?query splits back; counterexamples C06_cex_split_* for the excluded shapes), C06_normalize_idem. Tie: 'addr' lane compares ParseRemoteSource / MakeRemoteSource / ParseLocalSource / ValidSubPath with the model (front end + URL record from the real net/url) and applies the round-trip oracle Parse(String(x)) == x to every accepted and every derived value (relative resolution, Versioned, FinalSourceAddr, SourceAddr), plus 'equal iff prints the same'.",
+        "explanation": "Props/C06r (registry addresses, under explicit laws about the external parsers — RegLaws/VerLaws: a printed package/version parses to itself and has no '?', '//', trailing ':' etc.): C06_registry_roundtrip_partial, C06_registry_print_canonical, C06_registry_print_inj (two registry addresses are equal exactly when they print the same), C06_matchFinal_spec (the hand-written matcher is exactly the pattern's leftmost-greedy semantics: soundness, completeness, maximality), C06_final_registry_roundtrip_partial (incl. the 'pkg//' quirk for an empty sub-path), C06_dispatch_registry / C06_dispatch_final_registry (ParseSource / ParseFinalSource hand printed registry addresses to the registry parser), C19_registry_no_panic_partial; counterexamples C06_cex_final_sub_at / _newline (F36), C06_cex_registry_sub_trailing_space (F42), C06_cex_registry_sub_query. Registry.lean models ParseRegistrySource / ParseFinalRegistrySource (incl. the hand-written matcher for the pattern ^(.+)@([^/]+)(//(.+))?$), their String methods and the dispatch of ParseSource / ParseFinalSource, with regaddr.ParseModuleSource and versions.ParseVersion as oracle parameters; the 'registry' lane asks the model which strings it needs parsed, answers with the real libraries and compares results and dispatch. C06_local_roundtrip, C06_local_resolve_canonical / _roundtrip (the repaired local resolution always yields a canonical, re-parseable local address: F16), C06_subpath_split_roundtrip_partial / _url (printing pkg//sub?query splits back; counterexamples C06_cex_split_* for the excluded shapes), C06_normalize_idem. Tie: 'addr' lane compares ParseRemoteSource / MakeRemoteSource / ParseLocalSource / ValidSubPath with the model (front end + URL record from the real net/url) and applies the round-trip oracle Parse(String(x)) == x to every accepted and every derived value (relative resolution, Versioned, FinalSourceAddr, SourceAddr), plus 'equal iff prints the same'.",
     },
     "C07": {
         "lanes": [
